@@ -63,9 +63,16 @@ def isFinite : FVal K → Bool
 
 end FVal
 
-/-- `Interval(const I& i, bool maybe_nan)`: a result with a NaN bound is flagged -/
-def IVal.of {K : Type} (b : Bnd K) (mn : Bool) : IVal K :=
+/-- the PREVIOUS `Interval(const I& i, bool maybe_nan)` (before /repo 0be5df1): a result with a NaN
+    bound is flagged but KEEPS its NaN bounds (kept for `nan_bounds_kept_unsound`) -/
+def IVal.ofNanKept {K : Type} (b : Bnd K) (mn : Bool) : IVal K :=
   ⟨b.lo, b.hi, mn || b.lo.isNan || b.hi.isNan⟩
+
+/-- `Interval(const I& i_, bool maybe_nan)`: a result with a NaN bound is REPLACED by
+    `I(-INFINITY, INFINITY)` and flagged; otherwise the bounds are kept and the flag is `maybe_nan`
+    (`maybe_nan || isnan(lower) || isnan(upper)` with both tests false) -/
+def IVal.of {K : Type} (b : Bnd K) (mn : Bool) : IVal K :=
+  if b.lo.isNan || b.hi.isNan then ⟨FVal.ninf, FVal.pinf, true⟩ else ⟨b.lo, b.hi, mn⟩
 
 namespace FVal
 variable {K : Type}
